@@ -39,7 +39,9 @@ RULE = ('histories: action kind (snapshot / log / metric / span and combinations
         'whose condition is false in its own frame produces nothing; threads (every 17th case): a history with a finite '
         'fire_count whose hits arrive strictly one after the other on 2-3 persistent (live) host threads, often starting '
         'with a rejected hit (false / raising Exception / raising BaseException) on one thread followed by a true hit on '
-        'another — judged like any history (fires iff limits and condition permit); scope expressions (condition, watches, '
+        'another — judged like any history (fires iff limits and condition permit); scale (3 cases per quick run + 1 corpus case): '
+        '1000-2500 consecutive hits rejected by the condition (failing / false / mixed) on a log or metric action, then true '
+        'hits with budget left — they must fire; scope expressions (condition, watches, '
         'log fields, metric value and labels) include string literals with runs of blanks / tabs / line breaks, triple-quoted '
         'literals, expressions laid out over several lines inside brackets and leading / trailing blanks. Non-trivial: a '
         'history with at least one condition-rejected hit followed by a collection, or a scope case with at least one '
@@ -332,11 +334,44 @@ def gen_threads(rng):
     return case
 
 
+def scale_case(action, fire_count, run_kind, n, tail, rng=None):
+    """a long run of rejected hits (failing / false / mixed conditions), then `tail` more hits"""
+    fails = [{'k': 'raise', 'cls': 'NameError', 'msg': "name 'nope' is not defined"}, {'k': 'raise', 'cls': 'ValueError', 'msg': 'true'},
+             {'k': 'raise', 'cls': 'HostInterrupt', 'msg': 'y'}, {'k': 'raise', 'cls': 'KeyError', 'msg': 1}]
+    hits, ts = [], 1000
+    for i in range(n):
+        if run_kind == 'fail':
+            cond = fails[0] if rng is None else fails[(i // 97) % len(fails)]
+        elif run_kind == 'false':
+            cond = {'k': 'false'}
+        else:
+            cond = {'k': 'false'} if i % 7 == 3 else fails[i % len(fails)]
+        hits.append({'ts': ts, 'cond': cond})
+        ts += 1_000_000
+    for c in tail:
+        hits.append({'ts': ts, 'cond': c})
+        ts += 1_000_000
+    return {'kind': 'history', 'stream': 'scale', 'action': action, 'cfg': {'fire_count': fire_count, 'fire_period': '0'},
+            'condition': 'cond()', 'hits': hits}
+
+
+def gen_scale(rng):
+    """SCALE: 1000-2500 consecutive hits rejected by the condition (failing to evaluate / false / mixed) on a cheap
+    action, then true hits: a rejected hit uses up none of the budget, however many there were"""
+    t, f = {'k': 'true'}, {'k': 'false'}
+    tail = rng.choice([[t], [t, t], [t, f, t], [{'k': 'raise', 'cls': 'ValueError', 'msg': 'x'}, t, t]])
+    return scale_case(rng.choice(['log', 'metric', 'log', 'log+metric']), rng.choice(['1', '2', '-1', '3']),
+                      rng.choice(['fail', 'fail', 'false', 'mixed']), rng.choice([1000, 1001, 1024, rng.randint(1000, 2500)]),
+                      tail, rng)
+
+
 def gen(rng, tier):
     k = 0
     while True:
         k += 1
-        if k % 17 == 0:
+        if k % 500 == 100:
+            yield gen_scale(rng)
+        elif k % 17 == 0:
             yield gen_threads(rng)
         elif k % 13 == 0:
             yield gen_conc(rng, k // 13)
@@ -386,6 +421,8 @@ def corpus():
         # two threads expanding a log message at once: every field is evaluated in the frame of its own hit
         {'kind': 'conc', 'mode': 'log', 'fields': ['pause()', 'a', 'GSTR', 'who'], 'sched': [0, 1, 1, 0]},
         {'kind': 'conc', 'mode': 'snap', 'fields': ['who', 'pause()', 's', 'GNUM + a'], 'sched': [0, 1, 0, 1]},
+        # scale: 1001 consecutive hits whose condition fails to evaluate, then a true hit: it still fires
+        scale_case('log', '1', 'fail', 1001, [t, t]),
         # rejected hits on one live thread, then a true hit on another: the budget is still there
         {'kind': 'history', 'stream': 'threads', 'action': 'snapshot', 'cfg': {'fire_count': '1', 'fire_period': '0'},
          'condition': 'cond()', 'hits': [{'ts': 10, 'cond': f, 'thread': 0},
@@ -1233,6 +1270,16 @@ def shrink(case):
                                                 else tp['condition'].replace('c%d' % (j if j < i else j + 1), 'c%d' % j)))
                             for j, tp in enumerate(c['tps'])]
                 yield c
+        return
+    if case['kind'] == 'history' and case.get('stream') == 'scale':
+        # a long run: only a handful of candidates (halve the run, drop the last hit) — never one candidate per hit
+        hs = case['hits']
+        n = next((i for i, h in enumerate(hs) if h['cond'].get('k') == 'true'), len(hs))
+        for m in (n // 2, n - 1):
+            if 0 < m < n:
+                yield dict(case, hits=hs[:m] + hs[n:])
+        if len(hs) - n > 1:
+            yield dict(case, hits=hs[:-1])
         return
     if case['kind'] == 'history':
         hs = case['hits']
